@@ -9543,6 +9543,20 @@ class SVG(Group):
                 ):
                     parse_error = None
                     s = None
+                    # In a document an omitted width, height or radius is 0 and the element is not rendered
+                    # (SVG 1.1 9.2-9.4); only the constructors default to a unit shape.
+                    required = {
+                        SVG_TAG_RECT: (SVG_ATTR_WIDTH, SVG_ATTR_HEIGHT),
+                        SVG_TAG_CIRCLE: (SVG_ATTR_RADIUS,),
+                        SVG_TAG_ELLIPSE: (SVG_ATTR_RADIUS_X, SVG_ATTR_RADIUS_Y),
+                    }.get(tag, ())
+                    if tag == SVG_TAG_ELLIPSE and (
+                        SVG_ATTR_RADIUS_X in attributes or SVG_ATTR_RADIUS_Y in attributes
+                    ):
+                        required = ()  # one radius given: SVG 2 completes the other one
+                    for attribute in required:
+                        if attribute not in attributes:
+                            values[attribute] = 0
                     try:
                         if SVG_TAG_PATH == tag:
                             # Delayed path parsing, for partial paths.
